@@ -91,6 +91,19 @@ func c13Recipe(r *gen.R) spg.CharRecipe {
 	default:
 		rec = anyCharRecipe(r, 40)
 	}
+	if r.Chance(1, 40) { // many required sets (7-12): the count has thousands of inclusion-exclusion terms
+		k := r.Range(7, 12)
+		rec = spg.CharRecipe{}
+		letters := oracle.Chars("abcdefghijklmnopqrstuvwxyzABCDEFGHIJKLMNOPQRSTUVWXYZ0123456789")
+		for i := 0; i < k; i++ {
+			w := r.Range(2, 5)
+			rec.RequireSets = append(rec.RequireSets, strings.Join(letters[5*i:5*i+w], ""))
+		}
+		if r.Chance(1, 3) { // two of them overlap
+			rec.RequireSets[k-1] += firstChar(rec.RequireSets[0])
+		}
+		rec.Length = r.Range(k, 3*k+10)
+	}
 	if r.Chance(1, 12) { // long passwords: counts beyond float64 range
 		rec.Length = []int{100, 172, 173, 200, 400, 1000}[r.Intn(6)]
 	}
@@ -151,7 +164,7 @@ func c13Case(c *Ctx) {
 	for k := 0; k < per; k++ {
 		rec := c13Recipe(c.R)
 		kn := c13Knobs(c.R)
-		if nReqSets(rec) > 6 {
+		if nReqSets(rec) > 12 {
 			continue
 		}
 		c13Judge(c, rec, kn, k < 1 && c.Case < 3)
